@@ -89,6 +89,17 @@ def takeCounted : List Str → List Str × List Str
   | n :: rest => (rest.take (natOf n), rest.drop (natOf n))
   | [] => ([], [])
 
+/-- pairs `path real-path` -/
+def parseAliases : List Str → List (Order.Path × Order.Path)
+  | p :: r :: rest => (splitSlash p, splitSlash r) :: parseAliases rest
+  | _ => []
+
+/-- records of 14 fields: uid name obj permission vartype kind strlen proto proctype hasRetvar rv.vartype rv.kind rv.strlen rv.proto -/
+def parseComps : List Str → List Comp
+  | u :: n :: o :: pm :: vt :: k :: sl :: pr :: pt :: hr :: rvt :: rk :: rsl :: rpr :: rest =>
+    ⟨natOf u, n, o, pm, ⟨vt, k, sl, pr⟩, pt, if hr == ['1'] then some ⟨rvt, rk, rsl, rpr⟩ else none⟩ :: parseComps rest
+  | _ => []
+
 def showKind : FileKind → List Str
   | .fortran p f => ["fortran".toList, (if p then ['1'] else ['0']), (if f then ['1'] else ['0'])]
   | .extra => ["extra".toList]
@@ -189,6 +200,24 @@ def dispatchC12 : List Str → Option (List Str)
       | n :: rest =>
         let (ordered, enum) := takeN (natOf n) rest
         some ("ok".toList :: pageFileListTree ordered enum)
+      | [] => some ["bad-request".toList]
+    else if cmd == "c12.colours".toList then
+      -- c12.colours {ident label}: the nodes of a hop in the order the collection hands them out;
+      -- answer: ident colour-number ... in emission order (`add_nodes` of the tree)
+      let ns := parseNodes args
+      some ("ok".toList :: (hopColoursTree id ns).flatMap (fun e => [e.1, Proto.showNat e.2]))
+    else if cmd == "c12.findlisted".toList then
+      -- c12.findlisted <n> src dirs.. <n> exclude dirs.. <n> extensions.. then {path real-path} in enumeration order
+      let (sd, r1) := takeCounted args
+      let (ex, r2) := takeCounted r1
+      let (es, r3) := takeCounted r2
+      let al := parseAliases r3
+      let real : Order.Path → Order.Path := fun p => ((al.find? (fun e => e.1 == p)).map (·.2)).getD p
+      some ("ok".toList :: (findSourcesListedTree real (sd.map splitSlash) (ex.map splitSlash) es (al.map (·.1))).map joinSlash)
+    else if cmd == "c12.sortcomp".toList then
+      -- c12.sortcomp <mode> {14 fields per entity, in source order}: uids after sort_components
+      match args with
+      | mode :: rest => some ("ok".toList :: (sortComponents mode (parseComps rest)).map (fun c => Proto.showNat c.uid))
       | [] => some ["bad-request".toList]
     else if cmd == "c12.writeout".toList then
       -- c12.writeout <out> <nInit> init... then groups of writes separated by a field "|" : path content ...
